@@ -740,7 +740,8 @@ func (s *Server) Invoke(responseWriter http.ResponseWriter, invoke *interop.Invo
 	case err = <-releaseErrChan:
 		log.Debug("Invoke() release error")
 	case <-releaseSuccessChan:
-		s.Release()
+		// the reservation was already given back (AwaitRelease, or the reset that cancelled it);
+		// a Release() here could only give back the reservation of the next caller
 		log.Debug("Invoke() success")
 	}
 
